@@ -253,7 +253,7 @@ func brokenVariant(text string, k int) string {
 // rejectedReload: a coordinator that loaded the content from a file, then refused a broken version of that file,
 // still runs - and pushes - the content it accepted (property: an out-of-sync shard is "first sent the current raw
 // configuration", and in sync means running exactly that).
-func rejectedReload(c *c16Case, text0, h0 string, add func(key, f string, a ...interface{})) []string {
+func rejectedReload(prop string, c *c16Case, text0, h0 string, add func(key, f string, a ...interface{})) []string {
 	d, err := ioutil.TempDir("", "c16-reload-")
 	if err != nil {
 		return nil
@@ -293,15 +293,15 @@ func rejectedReload(c *c16Case, text0, h0 string, add func(key, f string, a ...i
 		}
 		cur := cm.ConfigInfo()
 		if string(cur.RawContent) != accepted {
-			add("C16/refused-reload-changes-current-config", "after step %d (%s file, reload error: %v) the current raw configuration is\n%q\nbut the last accepted content is\n%q", i, kind, err, cur.RawContent, accepted)
+			add(prop+"/refused-reload-changes-current-config", "after step %d (%s file, reload error: %v) the current raw configuration is\n%q\nbut the last accepted content is\n%q", i, kind, err, cur.RawContent, accepted)
 			return cls
 		}
 		if cur.ConfigHash != acceptedHash {
-			add("C16/refused-reload-changes-current-config", "after step %d (%s file, reload error: %v) the current hash is %s, the hash of the last accepted content is %s", i, kind, err, cur.ConfigHash, acceptedHash)
+			add(prop+"/refused-reload-changes-current-config", "after step %d (%s file, reload error: %v) the current hash is %s, the hash of the last accepted content is %s", i, kind, err, cur.ConfigHash, acceptedHash)
 			return cls
 		}
 		if string(info0.RawContent) != text0 || info0.ConfigHash != h0 {
-			add("C16/handed-out-config-info-changes", "the ConfigInfo handed out after the first load changed after step %d (%s file): raw content now\n%q", i, kind, info0.RawContent)
+			add(prop+"/handed-out-config-info-changes", "the ConfigInfo handed out after the first load changed after step %d (%s file): raw content now\n%q", i, kind, info0.RawContent)
 			return cls
 		}
 	}
@@ -321,12 +321,12 @@ func rejectedReload(c *c16Case, text0, h0 string, add func(key, f string, a ...i
 			_ = json.Unmarshal([]byte(o.bodies[i]), &r)
 			pushed = true
 			if r.RawContent != accepted {
-				add("C16/pushed-config-is-not-the-current-one", "the coordinator pushed\n%q\nbut the content it accepted last is\n%q", r.RawContent, accepted)
+				add(prop+"/pushed-config-is-not-the-current-one", "the coordinator pushed\n%q\nbut the content it accepted last is\n%q", r.RawContent, accepted)
 			}
 		}
 	}
 	if !pushed {
-		add("C16/out-of-sync-shard-not-sent-config", "a reachable shard with another hash was not sent the configuration")
+		add(prop+"/out-of-sync-shard-not-sent-config", "a reachable shard with another hash was not sent the configuration")
 	}
 	cls = append(cls, "reload/end-to-end-push")
 	return cls
@@ -432,7 +432,7 @@ func runC16(rec *vkit.Recorder, c *c16Case, t *rapid.T) []vkit.Violation {
 		}
 	}
 	if len(c.Neutral) > 0 {
-		cls = append(cls, rejectedReload(c, text0, h0, add)...)
+		cls = append(cls, rejectedReload("C16", c, text0, h0, add)...)
 	}
 	// neutral transformations
 	for i, st := range c.Neutral {
@@ -587,6 +587,56 @@ func TestC16(t *testing.T) {
 		}
 		if rec.WantSample() {
 			rec.Sample(map[string]interface{}{"edits": c.Edits, "extEdit": c.ExtEdit, "text": c.Spec.Text(c.Style)})
+		}
+	})
+}
+
+// TestC08Reload: C08's "is first sent the current raw configuration", with the coordinator's real config manager
+// (loaded from a file, one reload refused in between) instead of the stub the cycle scenarios use.
+func runC08Reload(rec *vkit.Recorder, c *c16Case) []vkit.Violation {
+	text0 := c.Spec.Text(c.Style)
+	h0, _, err := hashOf(text0)
+	if err != nil {
+		rec.Class("config-rejected")
+		return nil
+	}
+	var vs []vkit.Violation
+	cls := rejectedReload("C08", c, text0, h0, func(key, f string, a ...interface{}) {
+		vs = append(vs, vkit.Violation{Key: key, Msg: fmt.Sprintf(f, a...)})
+	})
+	cleanTemp()
+	b, _ := json.Marshal(c)
+	nt := false
+	for _, k := range cls {
+		if k == "reload/end-to-end-push" {
+			nt = true
+		}
+	}
+	rec.Eval(nt, vkit.Digest("c08reload", string(b)), cls...)
+	return vs
+}
+
+func TestReplayC08Reload(t *testing.T) {
+	rec := vkit.Rec("C08", "exploration", "")
+	for _, r := range vkit.LoadReplays("C08", "TestC08Reload") {
+		var c c16Case
+		if err := json.Unmarshal(r.Case, &c); err != nil {
+			t.Fatalf("%s: %v", r.Note, err)
+		}
+		if bad := rec.Filter(runC08Reload(rec, &c)); len(bad) > 0 {
+			t.Fatalf("%s: %s", r.Note, bad[0])
+		}
+		rec.Class("replayed-case")
+	}
+}
+
+func TestC08Reload(t *testing.T) {
+	rec := vkit.Rec("C08", "exploration", "")
+	rapid.Check(t, func(t *rapid.T) {
+		c := &c16Case{Spec: GenSpec(t), Style: GenStyle(t, "style"), Neutral: []Style{GenStyle(t, "neutral")}, Broken: rapid.IntRange(0, 3).Draw(t, "broken")}
+		if bad := rec.Filter(runC08Reload(rec, c)); len(bad) > 0 {
+			p := vkit.SaveViolation("C08", "TestC08Reload", c, bad, nil)
+			t.Fatalf("%s (replay %s)", bad[0], p)
 		}
 	})
 }
